@@ -86,6 +86,12 @@ nextPattern:
 			}
 		case consts.RoutingDomainKey_Keyword:
 			// Only use ac automaton for "keyword" matching to save memory.
+			for _, r := range []byte(d) {
+				if !ahocorasick.IsValidChar(r) {
+					n.log.Warnf("DomainMatcher: skip bad keyword domain: %v: unexpected char: %v", d, string(r))
+					continue nextPattern
+				}
+			}
 			n.toBuildAc[bitIndex] = append(n.toBuildAc[bitIndex], []byte(d))
 		case consts.RoutingDomainKey_Regex:
 			r, err := regexp.Compile(d)
